@@ -85,6 +85,12 @@ def copy (s : St) (dst src : Acc) : St :=
   | some p, some v => { s with root := set p s.root v }
   | _, _ => s
 
+/-- `x = x + n` through an access path (a method that updates a member of self and returns it) -/
+def addTo (s : St) (a : Acc) (n : Int) : St :=
+  match read s a with
+  | some (.int m) => write s a (m + n)
+  | _ => s
+
 /-- `p = &x` -/
 def reseat (s : St) (k : Nat) (a : Acc) : St :=
   match resolve s a with
@@ -95,6 +101,7 @@ inductive Op where
   | write (a : Acc) (n : Int)
   | copy (dst src : Acc)
   | reseat (k : Nat) (a : Acc)
+  | add (a : Acc) (n : Int)
   | nop                          -- a by-value call: the callee works on its own copy
   deriving Repr, Inhabited
 
@@ -102,6 +109,7 @@ def step (s : St) : Op → St
   | .write a n => write s a n
   | .copy d c => copy s d c
   | .reseat k a => reseat s k a
+  | .add a n => addTo s a n
   | .nop => s
 
 end CbModel.Heap
